@@ -19,8 +19,8 @@ Example ex_st0_owned :
   get_ctx st0 1 = None /\ active st0 = [5].
 Proof. vm_compute. auto. Qed.
 
-Definition sc_plain : script := mkScript [] [] [WProbe] false VTrue 0.
-Definition sc_work_raises : script := mkScript [] [] [WProbe] true VNone 0.
+Definition sc_plain : script := mkPlain [] [] [WProbe] false VTrue 0.
+Definition sc_work_raises : script := mkPlain [] [] [WProbe] true VNone 0.
 
 (* success path with a repeated request and a preemption of op5's r2 *)
 Example ex_success :
@@ -46,7 +46,7 @@ Proof. vm_compute. intuition. Qed.
 
 (* the work function kills its own operation, then another operation takes r3 *)
 Example ex_self_kill :
-  let sc := mkScript [] [] [WDo (FKill 1); WDo (FAcquire 5 3); WProbe] false VNone 0 in
+  let sc := mkPlain [] [] [WDo (FKill 1); WDo (FAcquire 5 3); WProbe] false VNone 0 in
   let '(s', res) := exec_op current no_timeouts st0 1 3 [3] sc in
   r_success res = true /\ owner s' 3 = Some 5 /\ active s' = [5].
 Proof. vm_compute. auto. Qed.
@@ -54,7 +54,7 @@ Proof. vm_compute. auto. Qed.
 (* the operation is killed while its G0 checkpoint callback runs - before the
    acquisition loop: it still takes r3 (twice) and preempts r2 while delisted, the
    liveness test stops it before work, and the abort gives everything back *)
-Definition sc_kill_g0 : script := mkScript [] [[CKill 1]] [WProbe] false VTrue 0.
+Definition sc_kill_g0 : script := mkPlain [] [[CKill 1]] [WProbe] false VTrue 0.
 Example ex_killed_in_g0_callback :
   let '(s', res) := exec_op current no_timeouts st0 1 3 [3; 2; 3] sc_kill_g0 in
   r_success res = false /\ r_phase res = G0 /\
@@ -79,7 +79,7 @@ Qed.
 (* killed while the G1 checkpoint callback runs - after the acquisition loop:
    everything is released by the kill, work_fn is not invoked *)
 Example ex_killed_in_g1_callback :
-  let sc := mkScript [] [[]; [CProbe; CKill 1; CProbe]] [WProbe] false VTrue 0 in
+  let sc := mkPlain [] [[]; [CProbe; CKill 1; CProbe]] [WProbe] false VTrue 0 in
   let '(s', res) := exec_op current no_timeouts st0 1 3 [3; 3] sc in
   r_success res = false /\ filter is_work (r_log res) = [] /\
   r_log res = [EvCp 0 true; EvProbe [(5, 1); (5, 2); (1, 2)]; EvDid [1]; EvProbe [(5, 1); (5, 2); (-1, 0)]; EvCp 1 true] /\
@@ -104,7 +104,7 @@ Proof. vm_compute. intuition congruence. Qed.
    op5 keeps r1.  The nested call shows in op1's log as ONE event: its encoded
    result (success, phase M, its own callback log). *)
 Definition sc_nested_then_fail : script :=
-  mkScript [] [] [WProbe; WExec 2 4 [2] sc_plain; WExec 1 0 [] sc_plain; WProbe] false VFalse 0.
+  mkPlain [] [] [WProbe; WExec 2 4 [2] sc_plain; WExec 1 0 [] sc_plain; WProbe] false VFalse 0.
 Example ex_nested_then_validation_fails :
   let '(s', res) := exec_op current no_timeouts st0 1 3 [3; 3] sc_nested_then_fail in
   r_success res = false /\ probe s' = [(5, 1); (-1, 0); (-1, 0)] /\ active s' = [5] /\
@@ -184,7 +184,7 @@ Lemma c14_legacy_reentrant_leak_refuted :
     r_success (snd (exec_op (mkF true false false) w s o p reqs sc)) = true /\
     exists r, owner (fst (exec_op (mkF true false false) w s o p reqs sc)) r = Some o.
 Proof.
-  exists no_timeouts, (init_state [(1, false)]), 1, 0, [1; 1], (mkScript [] [] [] false VNone 0).
+  exists no_timeouts, (init_state [(1, false)]), 1, 0, [1; 1], (mkPlain [] [] [] false VNone 0).
   split; [apply wf_init|]. split; [reflexivity|]. split; [reflexivity|].
   exists 1. reflexivity.
 Qed.
@@ -212,7 +212,7 @@ Lemma c14_legacy_work_after_kill_refuted :
     ~ In o (active sw) /\ (exists r, In r reqs /\ owner sw r <> Some o) /\
     r_success (snd (exec_op_gen false current w s o p reqs sc)) = true.
 Proof.
-  exists no_timeouts, (init_state [(1, false)]), 1, 0, [1], (mkScript [] [[]; [CKill 1]] [] false VNone 0).
+  exists no_timeouts, (init_state [(1, false)]), 1, 0, [1], (mkPlain [] [[]; [CKill 1]] [] false VNone 0).
   eexists. split; [apply wf_init|]. split; [simpl; tauto|].
   split; [vm_compute; right; right; right; left; reflexivity|].
   split; [vm_compute; tauto|]. split; [exists 1; split; [simpl; auto | vm_compute; discriminate]|].
@@ -225,7 +225,7 @@ Qed.
    own error classes (12) - and a nested call whose work raises yet another one: the same
    failed result (ctx.phase is back at G0 after the abort), nothing left owned, op5's locks as they were *)
 Definition sc_vraise (k k2 : Z) : script :=
-  mkScript [] [] [WProbe; WExec 2 0 [1; 3] (mkScript [] [] [WProbe] true VNone k2); WProbe] false VRaise k.
+  mkPlain [] [] [WProbe; WExec 2 0 [1; 3] (mkPlain [] [] [WProbe] true VNone k2); WProbe] false VRaise k.
 Example ex_values_irrelevant :
   with_val 0 (sc_vraise 2 12) = with_val 0 (sc_vraise 0 0) /\
   sc_vraise 2 12 <> sc_vraise 0 0 /\
@@ -239,3 +239,59 @@ Proof.
   split; [apply values_irrelevant_proof; reflexivity|].
   vm_compute. intuition.
 Qed.
+
+(* ------------------------------------------------------------------ *)
+(* callables of other shapes: signatures, truthiness, run counts         *)
+
+(* work functions that tolerate extra positional arguments - `def work( *args)`, `def work(ctx=None)`,
+   a functools.partial, a bound method `job.run(self, dry_run=False)`, a falsy callable object - and a
+   validator `def check(result, strict=False)`: the body of the work function still runs exactly once,
+   whether it returns or raises (which exception it raises - a TypeError, say - is [sc_val]: irrelevant),
+   and the outcome is that of the plain `def work():` *)
+Definition sh_star : shape := mkShape 0 None true.                 (* def f( *args) *)
+Definition sh_default : shape := mkShape 0 (Some 1%nat) true.      (* def f(ctx=None) / bound method with an optional argument *)
+Definition sh_falsy_object : shape := mkShape 0 None false.        (* class Job(list): def __call__(self, *a) *)
+Definition sh_result_opt : shape := mkShape 1 (Some 2%nat) true.   (* def check(result, strict=False) *)
+Definition sc_shaped (raises : bool) (k : Z) (ws vs : shape) : script :=
+  mkScript [] [] [WProbe] raises VTrue k ws vs.
+
+Example ex_signatures_irrelevant :
+  norm_sig (sc_shaped true 18 sh_star sh_result_opt) = norm_sig (sc_shaped true 18 sh_noargs sh_onearg) /\
+  norm_sig (sc_shaped true 18 sh_falsy_object sh_result_opt) = norm_sig (sc_shaped true 18 sh_default sh_onearg) /\
+  sc_shaped true 18 sh_star sh_result_opt <> sc_shaped true 18 sh_noargs sh_onearg /\
+  exec_op current no_timeouts st0 1 3 [3; 2; 3] (sc_shaped true 18 sh_star sh_result_opt)
+    = exec_op current no_timeouts st0 1 3 [3; 2; 3] (sc_shaped true 18 sh_noargs sh_onearg) /\
+  let '(s', res) := exec_op current no_timeouts st0 1 3 [3; 2; 3] (sc_shaped true 18 sh_star sh_result_opt) in
+  r_success res = false /\ work_runs res = 1%nat /\ validate_runs res = 0%nat /\ In EvWorkRaise (r_log res) /\
+  owner s' 2 = None /\ owner s' 3 = None /\ owner s' 1 = Some 5 /\ active s' = [5].
+Proof.
+  split; [reflexivity|]. split; [reflexivity|]. split; [discriminate|].
+  split; [apply signatures_irrelevant_proof; reflexivity|].
+  vm_compute. intuition.
+Qed.
+
+(* success with shaped callables: each body ran exactly once *)
+Example ex_run_counts_success :
+  let '(s', res) := exec_op current no_timeouts st0 1 3 [3; 2; 3] (sc_shaped false 0 sh_default sh_result_opt) in
+  r_success res = true /\ work_runs res = 1%nat /\ validate_runs res = 1%nat /\
+  has_validator (sc_shaped false 0 sh_default sh_result_opt) = true /\ owner s' 3 = None /\ active s' = [5].
+Proof. vm_compute. intuition. Qed.
+
+(* a work function that NEEDS an argument (`def work(ctx):`) cannot be called as work_fn(): TypeError
+   from the call itself, the body never runs, the operation fails in phase S having held r3 twice and
+   the preempted r2 - and gives everything back; the same for a validator without parameters *)
+Definition sh_needs_one : shape := mkShape 1 (Some 1%nat) true.
+Example ex_uncallable_work :
+  accepts sh_needs_one 0 = false /\
+  let '(s', res) := exec_op current no_timeouts st0 1 3 [3; 2; 3] (sc_shaped false 0 sh_needs_one sh_onearg) in
+  r_success res = false /\ work_runs res = 0%nat /\ validate_runs res = 0%nat /\
+  r_log res = [EvCp 0 true; EvCp 1 true] /\
+  owner s' 2 = None /\ owner s' 3 = None /\ owner s' 1 = Some 5 /\ active s' = [5].
+Proof. vm_compute. intuition. Qed.
+
+Example ex_uncallable_validator :
+  accepts sh_noargs 1 = false /\ has_validator (sc_shaped false 0 sh_noargs sh_noargs) = true /\
+  let '(s', res) := exec_op current no_timeouts st0 1 3 [3; 2; 3] (sc_shaped false 0 sh_noargs sh_noargs) in
+  r_success res = false /\ work_runs res = 1%nat /\ validate_runs res = 0%nat /\ In EvWorkRet (r_log res) /\
+  owner s' 2 = None /\ owner s' 3 = None /\ active s' = [5].
+Proof. vm_compute. intuition. Qed.
